@@ -164,6 +164,14 @@ func c13(tier string) []*explore.Scenario {
 			}
 		}
 	}
+	// the full product of field shapes, one or two envelopes, against a unary call, a fresh stream and a stream in progress
+	for _, where := range []string{"unary", "stream", "stream-in-progress"} {
+		out = append(out, c13Product(where, 1, false), c13Product(where, 1, true))
+	}
+	out = append(out, c13Product("stream", 2, false))
+	if tier == "thorough" {
+		out = append(out, c13Product("unary", 2, false), c13Product("stream-in-progress", 2, true))
+	}
 	// back-to-back deliveries
 	for _, mix := range []string{"uu", "us"} {
 		for _, st := range []bool{false, true} {
@@ -361,4 +369,142 @@ func subseq(a, b []string) bool {
 		j++
 	}
 	return true
+}
+
+// c13Product: the product of field shapes - header {valid, absent, with
+// metadata, with undecodable metadata} x body {absent, message, undecodable,
+// empty} x trailer {absent, present, with undecodable metadata} x status
+// {absent, OK, error} x reset {absent, RST_STREAM} = 288 envelopes, n of them
+// in sequence, addressed to an outstanding unary call, a stream that has
+// received nothing yet, or a stream that has received one message. Whatever
+// arrives: no crash; after the connection closes the call has terminated;
+// success only with data an envelope addressed to it carried; a clean end only
+// if some envelope carried a trailer with an OK (or no) status.
+func c13Product(where string, n int, withStats bool) *explore.Scenario {
+	fam := "C13/hostile"
+	return &explore.Scenario{
+		Name: fmt.Sprintf("C13/product/%s/len=%d/stats=%v", where, n, withStats), Family: fam, Prop: "C13", Bound: 0, MaxExecs: 3000000,
+		Run: func() {
+			w := env.NewWorld()
+			var dial []goat.DialOption
+			if withStats {
+				dial = append(dial, goat.WithStatsHandler(&c13Stats{}))
+			}
+			d := env.NewDirect(w, env.DirectOpts{Pipe: env.PipeOpts{Cap: 64}, NoServer: true, DialOpts: dial})
+			vsched.Settle()
+			var r *env.Rec
+			headerDone := true
+			method := env.MUnary
+			if where == "unary" {
+				r = w.Rec("c", "Unary")
+				vsched.GoNamed("caller", func() { w.CallUnary(d.CC, context.Background(), r, "x") })
+			} else {
+				method = env.MBidi
+				r = w.Rec("c", "Bidi")
+				headerDone = false
+				opened := make(chan struct{})
+				vsched.GoNamed("caller", func() {
+					cs := w.Open(d.CC, context.Background(), r)
+					close(opened)
+					if cs != nil {
+						env.CRecvAll(r, cs)
+						r.CTrailer = cs.Trailer()
+					}
+					r.CDone = true
+				})
+				vsched.GoNamed("header", func() {
+					<-opened
+					if r.CStream != nil {
+						r.CHeader, _ = r.CStream.Header()
+					}
+					headerDone = true
+				})
+			}
+			vsched.Settle()
+			const id = 1
+			var sent []string
+			okEnd := false
+			if where == "stream-in-progress" {
+				d.Pipe.B.Inject(env.RespBody(id, method, "first"))
+				sent = append(sent, "first")
+				vsched.Quiesce()
+			}
+			seq := ""
+			for k := 0; k < n; k++ {
+				hk, bk, tk, sk, rk := vsched.Choose(4), vsched.Choose(4), vsched.Choose(3), vsched.Choose(3), vsched.Choose(2)
+				rpc := &env.Rpc{Id: id}
+				payload := fmt.Sprintf("P%d", k)
+				switch hk {
+				case 0:
+					rpc.Header = env.RespBody(id, method, "").Header
+				case 2:
+					rpc.Header = env.RespBody(id, method, "").Header
+					rpc.Header.Headers = []*goatorepo.KeyValue{{Key: "h", Value: payload}}
+				case 3:
+					rpc.Header = env.RespBody(id, method, "").Header
+					rpc.Header.Headers = []*goatorepo.KeyValue{{Key: "x-bin", Value: "!!bad!!"}}
+				}
+				switch bk {
+				case 1:
+					rpc.Body = c13Body(payload)
+					sent = append(sent, payload)
+				case 2:
+					rpc.Body = &goatorepo.Body{Data: []byte{0xff, 0xff, 0xff}}
+				case 3:
+					rpc.Body = &goatorepo.Body{}
+					sent = append(sent, "") // an empty body is a message that encodes to zero bytes
+				}
+				switch tk {
+				case 1:
+					rpc.Trailer = &goatorepo.Trailer{}
+				case 2:
+					rpc.Trailer = &goatorepo.Trailer{Metadata: []*goatorepo.KeyValue{{Key: "t-bin", Value: "!!bad!!"}}}
+				}
+				switch sk {
+				case 1:
+					rpc.Status = &goatorepo.ResponseStatus{Code: 0, Message: "OK"}
+				case 2:
+					rpc.Status = &goatorepo.ResponseStatus{Code: 9, Message: "bad"}
+				}
+				if rk == 1 {
+					rpc.Reset_ = &goatorepo.Reset{Type: "RST_STREAM"}
+				}
+				if rpc.Trailer != nil && rpc.GetStatus().GetCode() == 0 {
+					okEnd = true
+				}
+				seq += fmt.Sprintf(" [h%d b%d t%d s%d r%d]", hk, bk, tk, sk, rk)
+				if err := d.Pipe.B.Inject(rpc); err != nil {
+					vsched.Fail(fam+"|harness", "inject: %v", err)
+					return
+				}
+				vsched.Quiesce()
+			}
+			d.Pipe.A.Break()
+			d.Pipe.B.Break()
+			vsched.Quiesce()
+			vsched.Obs("%s:%s | %s", where, seq, r.Summary())
+			switch {
+			case r.Runaway:
+				vsched.Fail(fam+"|recv-success-without-data", "%s after%s: RecvMsg keeps returning nil without ever delivering a message or a terminal status", where, seq)
+			case !r.CDone:
+				vsched.Fail(fam+"|call-hang", "%s after%s and connection close: the call never terminated; threads: %s", where, seq, threadList())
+			case !headerDone:
+				vsched.Fail(fam+"|header-hang", "%s after%s and connection close: Header() never returned", where, seq)
+			case r.Kind == "Unary":
+				if r.CErr == nil && !contains(sent, r.CReply) {
+					vsched.Fail(fam+"|fabricated", "unary call after%s reports success with reply %q which no envelope addressed to it carried (%v)", seq, r.CReply, sent)
+				}
+			default:
+				if !subseq(r.CRecv, sent) {
+					vsched.Fail(fam+"|fabricated", "%s after%s: received %v; envelopes addressed to it carried %v", where, seq, r.CRecv, sent)
+				}
+				if r.CErr == io.EOF && !okEnd {
+					vsched.Fail(fam+"|fabricated-eof", "%s after%s: ended cleanly although no envelope carried a trailer with an OK status", where, seq)
+				}
+				if r.CErr == nil && r.COpenErr == nil {
+					vsched.Fail(fam+"|no-terminal", "%s after%s: no terminal result", where, seq)
+				}
+			}
+		},
+	}
 }
